@@ -57,6 +57,10 @@ CHECKS['C13'] = ('§3 C13', 'R02b tail repair of the transaction log on reopen, 
                  'logs and what recovery restores (with lock handles), R13b recovery consumes every list its classification fills',
                  'MIR reachability under a phase assumption, writer/reader table agreement, field read/write sets')
 
+CHECKS['C17'] = ('§3 C17', 'R17a the newer-wins order reads every replicated view field (health, incarnation, timestamp) on both operands, '
+                 'R17b every logical-clock write is old(+max)+positive constant, R17c incarnation is written only in refute under a '
+                 'new > old necessary condition and merge inserts only under supersedes',
+                 'field read sets, rvalue shape via def chains, must-pass switch edges, who-may-write')
 CHECKS['C19'] = ('§3 C19', 'R19a the `_refs` read-modify-write and the exists-then-increment-or-put run under a lock held in the function or at '
                  'every call site, R19b gc_cycle deletes only under must-pass tests implying refs <= 0 and minimum age, full_gc only on '
                  'non-membership in the set built from every artifact, R19c put and the streaming writer share one store_chunk path and '
